@@ -744,6 +744,28 @@ def call_ext(I, f: Ext, args, kw, node=None):
     if name in ("struct.unpack",):
         I.used_models.add("struct.unpack")
         return struct_unpack(I, StructObj(args[0]), args[1])
+    if name == "int.from_bytes":
+        I.used_models.add("int.from_bytes")
+        data = args[0]
+        order = args[1] if len(args) > 1 else kw.get("byteorder", "big")
+        signed = kw.get("signed", False)
+        if isinstance(data, ByteArr):
+            data = data.v
+        if isinstance(data, (bytes, bytearray)) and isinstance(order, str):
+            return int.from_bytes(bytes(data), order, signed=bool(signed))
+        if order not in ("big", "little") or signed is not False:
+            raise Unsupported("int.from_bytes with symbolic byte order / signed")
+        ln = call_ext(I, Ext("len"), [data], {})
+        n = I.concretize(I._num(ln, "int")) if not isinstance(ln, int) else ln
+        if n is None:
+            raise Unsupported("int.from_bytes of a value of symbolic length")
+        vals = [I._num(I.index(data, i), "int") for i in range(n)]
+        if order == "little":
+            vals.reverse()
+        val = z3.IntVal(0)
+        for b_ in vals:
+            val = val * 256 + b_
+        return SV(z3.simplify(val), "int")
     if name == "object.__init__":
         return None
     if name in ("typing.cast", "cast"):
